@@ -188,7 +188,7 @@ func singleInsert(c *core.Ctx, lc *core.LockCache) {
 				why = "return without a client"
 				continue
 			}
-			e, ok := core.Strip(r.Results[0]).(*ssa.Extract)
+			e, ok := core.Canon(core.RetVal(r, 0)).(*ssa.Extract)
 			if !ok || e.Tuple != witness || e.Index != 0 {
 				good = false
 				why = "the duplicate branch does not return the client already in the pool"
